@@ -97,7 +97,7 @@ package spec
 //@   loop[3] invariant tableOK(table) && sameTables(table)
 //@   loop[6] invariant tableOK(table) && sameTables(table)
 //@   ensures @typed result1 == nil && 0 <= i && i <= 34 ==> lrResultTyped(i, result0)
-//@   ensures @spec-nonnil i == 0 && result1 == nil ==> unbox(result0, "*Spec") != nil
+//@   ensures @spec-nonnil i == 0 && result1 == nil ==> unbox(result0, "*Spec") != nil && specWF(unbox(result0, "*Spec"))
 
 // ---- the symbol table ----
 
@@ -111,6 +111,9 @@ package spec
 //@ func (t *SymbolTable) Precedences() lr.PrecedenceLevels
 //@   requires t != nil
 //@   ensures result == t.precedences.list
+
+// specWF: what every consumer of a Spec relies on: its definitions are there.
+//@ spec func specWF(s *Spec) bool = s != nil && (forall j int :: {s.Definitions[j]} 0 <= j && j < len(s.Definitions) ==> s.Definitions[j] != nil)
 
 // tableOK: representation invariant. The terminals / nonTerminals tables compare keys with == (EqTerminal,
 // EqNonTerminal), so their abstract content (dom, val) is an ordinary finite map; every stored entry is non-nil.
@@ -234,8 +237,8 @@ package spec
 //@   modifies heap
 //@   assumes @A-TABLES tablesOK()
 //@   clientinv = table != nil && tableOK(table) && errs != nil && errs.n >= 0
-//@   callsite ParseAndEvaluate assumes @L-STACK result1 == nil ==> result0 != nil && lrResultTyped(0, result0.Val) && unbox(result0.Val, "*Spec") != nil
-//@   ensures @never-nil-nil result1 == nil ==> result0 != nil
+//@   callsite ParseAndEvaluate assumes @L-STACK result1 == nil ==> result0 != nil && lrResultTyped(0, result0.Val) && unbox(result0.Val, "*Spec") != nil && specWF(unbox(result0.Val, "*Spec"))
+//@   ensures @never-nil-nil result1 == nil ==> result0 != nil && specWF(result0)
 //@   ensures result1 != nil ==> result0 == nil
 
 // ---- verification of the populated table (C07) ----
